@@ -92,7 +92,7 @@ func genC05(tier string, seed int64) []Case {
 	add(c05Desc{Kind: "repeat", NExt: 2, T: 150, Ignores: true, Rounds: []string{"e1:registeredNeverNext", "ok", "rt:afterResponseNoNext", "ok", "e0:afterEvent", "ok"}})
 	if tier == "thorough" {
 		r := rng(seed, "C05/repeat")
-		for i := 0; i < 40; i++ {
+		for i := 0; i < 150; i++ {
 			nExt := r.Intn(3)
 			var rounds []string
 			fresh := true // a new generation starts in this round
@@ -114,7 +114,7 @@ func genC05(tier string, seed int64) []Case {
 			rounds = append(rounds, "ok")
 			add(c05Desc{Kind: "repeat", NExt: nExt, T: []int64{120, 200}[r.Intn(2)], Ignores: r.Intn(3) == 0, Rounds: rounds})
 		}
-		for rep := 0; rep < 6; rep++ {
+		for rep := 0; rep < 12; rep++ {
 			for delta := -6; delta <= 6; delta++ {
 				add(c05Desc{Kind: "sweep", Who: "rt", Phase: fmt.Sprintf("respondAtDelta-rep%d", rep), NExt: rep % 3, T: 150, Delta: delta})
 			}
